@@ -132,3 +132,11 @@ func init() {
 		"histories up to the depth bound over 3 receivers; states are merged when the scheduling fields of the real object (statuses, queue, slots, in-flight invocations, staleness) agree",
 	}, Parts: []*PartSpec{{Name: "admission", Harness: "c12", Instrument: true, Shards: 2, GoMaxProcs: 1, ImportMap: quicMap, Timeout: 45 * time.Minute}}})
 }
+
+func init() {
+	register("C08", &CheckSpec{Level: "model_checking", Assumptions: []string{
+		"TLS is modelled by the vquic exporter: both ends of one connection export identical keying material, different connections export unrelated material (checked against real quic-go in the conformance suite); cryptographic strength of HMAC-SHA256 is assumed",
+		"the attacker does not know the join code; it is an end point of its own TLS sessions and can compute any message for a code of its own choosing",
+		"the ordering clause (no transfer byte before authentication) is decided for the extra-connection functions on the vquic byte log; for the primary connection inside runICEQUICTransfer / runTransfer it is not decided by this check (those regions are not drivable without ICE)",
+	}, Parts: []*PartSpec{{Name: "auth", Harness: "c08", Instrument: true, Shards: 16, GoMaxProcs: 1, ImportMap: quicMap}}})
+}
